@@ -32,10 +32,51 @@ def _primary_aliases(func):
     return res
 
 
+RECEIVED = "'receive' in ctr.actions"
+
+
+def _received_premise(tree):
+    ''' On the forwarding path the bundle carries the 'receive' action: recv_bundle records it before the
+    bundle enters the forward queue, and _do_fwd takes its bundle from that queue. '''
+    fr = FuncView(tree, AGENT, 'Agent.recv_bundle')
+    recs = [c for c in method_calls(fr.func, 'record_action') if c.args and const_str(c.args[0]) == 'receive']
+    apps = [c for c in calls_in(fr.func) if pm('self._fwd_queue.append(ctr)', c) is not None]
+    fd = FuncView(tree, AGENT, Q)
+    takes = [n for n in walk_local(fd.func) if isinstance(n, ast.Assign) and src(n.targets[0]) == 'ctr' and pm('self._fwd_queue.pop(0)', n.value) is not None]
+    writers = []
+    for (r, qual, func) in tree.all_functions([AGENT]):
+        for c in calls_in(func):
+            if isinstance(c.func, ast.Attribute) and c.func.attr in ('append', 'insert', 'extend') and src(c.func.value) == 'self._fwd_queue' and func is not fr.func:
+                writers.append(c)
+    return bool(recs and apps and takes and not writers and all(fr.dominates(recs[0], a)[0] for a in apps))
+
+
+def _reach_forwarding(tree, cg, root, ob):
+    ''' Transitive callees of _do_fwd, pruning call sites that are guarded by "the bundle was not received". '''
+    premise = _received_premise(tree)
+    seen = {id(root): [root]}
+    stack = [root]
+    while stack:
+        cur = stack.pop()
+        fv = None
+        (rel, qual) = cg.qual(cur)
+        if isinstance(cur, ast.FunctionDef) and rel in (AGENT, UTIL) and tree.has_func(rel, qual):
+            fv = FuncView(tree, rel, qual)
+        for (call, tgt) in cg.callees(cur):
+            if id(tgt) in seen:
+                continue
+            if fv is not None and premise and fv.has(call, RECEIVED, False):
+                ob.note('call {} in {} is only made for bundles that were not received: pruned from the forwarding path'.format(src(call)[:40], qual))
+                continue
+            seen[id(tgt)] = seen[id(cur)] + [tgt]
+            stack.append(tgt)
+    return seen
+
+
 def c11a(tree, ob, only=None):
     cg = CallGraph(tree, [AGENT, UTIL])
     root = tree.func(AGENT, Q)
-    reach = cg.reachable_from(root)
+    reach = _reach_forwarding(tree, cg, root, ob)
     eid_fields = {f.name for f in schema.fields_desc(tree, BLOCKS, 'PrimaryBlock', inherit=False) if f.kind == 'EidField'}
     nsites = 0
     for key, chain in reach.items():
